@@ -148,6 +148,11 @@ type Run struct {
 	oooULIDs    map[string]bool
 	riskBound   int64
 	headDeleted map[int]map[int64]int
+	// Known finding "block-delete-lost-after-tombstone-cleanup-and-restart": (series,t) -> stage;
+	// 1 deleted while stored in a persisted block (below the head's lower bound), 2 tombstones
+	// cleaned or blocks compacted since (a block whose samples are all deleted is removed, and
+	// with it the bound that keeps WAL replay from re-reading those samples), 3 reopened since.
+	blockDeleted map[int]map[int64]int
 	// Known finding "snapshot-restart-reissues-series-ref": createdThisSession lists series that
 	// got a ref since the last open; ghostAtReopen is set when, with snapshot-on-shutdown, the
 	// database was reopened while such a series had no data in the head (it is in neither the
@@ -180,6 +185,9 @@ const SigDeleteHidesLater = "delete-hides-later-ooo-append"
 
 // SigHeadDeleteLost names the known finding about head tombstones dropped by a head compaction.
 const SigHeadDeleteLost = "head-delete-lost-after-compaction-and-restart"
+
+// SigBlockDeleteLost names the known finding about samples deleted in a block that WAL replay brings back.
+const SigBlockDeleteLost = "block-delete-lost-after-tombstone-cleanup-and-restart"
 
 // SigMixedBound names the known finding about merged out-of-order blocks raising the restart bound.
 const SigMixedBound = "ooo-block-merged-raises-restart-bound"
@@ -225,6 +233,19 @@ func (r *Run) noteHeadDeleted(from, to int) {
 			}
 		}
 	}
+	if from == 2 && to == 3 { // reopen
+		r.noteBlockDeleted(2, 3)
+	}
+}
+
+func (r *Run) noteBlockDeleted(from, to int) {
+	for _, m := range r.blockDeleted {
+		for t, st := range m {
+			if st == from {
+				m[t] = to
+			}
+		}
+	}
 }
 
 // KnownTriggerSeen reports whether the trigger pattern of a known finding that makes WAL
@@ -245,7 +266,7 @@ func (r *Run) KnownTriggerSeen() bool {
 // AnyKnownTrigger reports whether the history contains the trigger pattern of any known
 // finding detected by this runner (used by checks that need an exact model afterwards).
 func (r *Run) AnyKnownTrigger() bool {
-	if len(r.tainted) > 0 || len(r.oooDeleteSurvivors) > 0 || len(r.hiddenCands) > 0 || len(r.headDeleted) > 0 || r.riskBound != math.MinInt64 || r.SnapRefRisk || r.Did["stale-reorder"] > 0 {
+	if len(r.tainted) > 0 || len(r.oooDeleteSurvivors) > 0 || len(r.hiddenCands) > 0 || len(r.headDeleted) > 0 || len(r.blockDeleted) > 0 || r.riskBound != math.MinInt64 || r.SnapRefRisk || r.Did["stale-reorder"] > 0 {
 		return true
 	}
 	for _, st := range r.dupStage {
@@ -339,7 +360,7 @@ func (r *Run) RiskBound() int64 { return r.riskBound }
 // StartDir opens a database in the given (empty or existing) directory.
 func StartDir(h History, rec *ev.Rec, dir string) (*Run, error) {
 	r := &Run{Cfg: h.Cfg, Dir: dir, Rec: rec, Apps: map[int]*appState{}, Did: map[string]int{}, CheckAdmission: true,
-		oooDeleteSurvivors: map[int]map[int64]bool{}, deletedRanges: map[int][][2]int64{}, hiddenCands: map[int]map[int64]bool{}, oooULIDs: map[string]bool{}, riskBound: math.MinInt64, lastRef: map[int]storage.SeriesRef{}, createdThisSession: map[int]bool{}, headDeleted: map[int]map[int64]int{}, everCreated: map[int]bool{}, dupStage: map[int]int{}, creator: map[int]int{}, established: map[int]bool{}, tainted: map[int]bool{}, taintedReopened: map[int]bool{}}
+		oooDeleteSurvivors: map[int]map[int64]bool{}, deletedRanges: map[int][][2]int64{}, hiddenCands: map[int]map[int64]bool{}, oooULIDs: map[string]bool{}, riskBound: math.MinInt64, lastRef: map[int]storage.SeriesRef{}, createdThisSession: map[int]bool{}, headDeleted: map[int]map[int64]int{}, blockDeleted: map[int]map[int64]int{}, everCreated: map[int]bool{}, dupStage: map[int]int{}, creator: map[int]int{}, established: map[int]bool{}, tainted: map[int]bool{}, taintedReopened: map[int]bool{}}
 	r.M = tm.New(h.Cfg.NSeries, h.Cfg.ChunkRange, h.Cfg.OOOWindow)
 	if err := r.open(); err != nil {
 		os.RemoveAll(dir)
@@ -650,6 +671,7 @@ func (r *Run) exec(op Op) error {
 		r.afterCompaction()
 		r.noteGC()
 		r.noteCheckpoint()
+		r.noteBlockDeleted(1, 2)
 	case "flush":
 		if len(r.Apps) > 0 {
 			return nil
@@ -689,6 +711,7 @@ func (r *Run) exec(op Op) error {
 		if err != nil {
 			return r.failf("CleanTombstones returned an error: %v", err)
 		}
+		r.noteBlockDeleted(1, 2)
 	case "mmap":
 		r.DB.ForceHeadMMap()
 		r.Trace = append(r.Trace, "db.ForceHeadMMap")
@@ -721,7 +744,7 @@ func (r *Run) exec(op Op) error {
 				r.dupStage[s] = st + 1
 			}
 		}
-		r.M.Restarted(r.DB.Head().MinTime() != math.MaxInt64, r.inOrderBlocksMaxT())
+		r.M.Restarted(r.DB.Head().MinTime() != math.MaxInt64, r.DB.Head().MaxTime(), r.inOrderBlocksMaxT())
 		r.noteGC()
 		for s := range r.tainted {
 			r.taintedReopened[s] = true
@@ -778,7 +801,7 @@ func (r *Run) exec(op Op) error {
 				r.dupStage[s] = st + 1
 			}
 		}
-		r.M.Restarted(r.DB.Head().MinTime() != math.MaxInt64, r.inOrderBlocksMaxT())
+		r.M.Restarted(r.DB.Head().MinTime() != math.MaxInt64, r.DB.Head().MaxTime(), r.inOrderBlocksMaxT())
 		r.noteGC()
 		for s := range r.tainted {
 			r.taintedReopened[s] = true
@@ -806,6 +829,12 @@ func (r *Run) noteDelete(op Op) []int {
 				}
 				r.headDeleted[si][t] = 1
 			}
+			if !p.OOOHead && t >= op.Mint && t <= op.Maxt && t < r.M.Head.MinValid {
+				if r.blockDeleted[si] == nil {
+					r.blockDeleted[si] = map[int64]int{}
+				}
+				r.blockDeleted[si][t] = 1
+			}
 			if (p.OOOHead || p.WasOOO) && t >= op.Mint && t <= op.Maxt {
 				if r.oooDeleteSurvivors[si] == nil {
 					r.oooDeleteSurvivors[si] = map[int64]bool{}
@@ -832,6 +861,9 @@ func (r *Run) classify(opK string, err error) error {
 	}
 	if r.failExtra && r.headDeleted[r.failSeries][r.failT] == 3 {
 		return ev.FailSig(SigHeadDeleteLost, "%s", err.Error())
+	}
+	if r.failExtra && r.blockDeleted[r.failSeries][r.failT] == 3 {
+		return ev.FailSig(SigBlockDeleteLost, "%s", err.Error())
 	}
 	if r.failMissing && (opK == "reopen" || opK == "crashreopen") && r.failT < r.riskBound {
 		if p := r.M.Series[r.failSeries].Pts[r.failT]; p != nil && !p.WasOOO {
@@ -885,9 +917,11 @@ func (r *Run) AdoptCrashed(dir string, inflight *Op) error {
 					}
 				}
 			}
-		case "compact", "flush", "compactooo", "evictstale", "evictsel":
-			// the head compaction in flight may have completed its checkpoint
+		case "compact", "flush", "compactooo", "evictstale", "evictsel", "cleantomb":
+			// the head compaction in flight may have completed its checkpoint, the tombstone
+			// cleanup in flight may have removed an emptied block
 			r.noteCheckpoint()
+			r.noteBlockDeleted(1, 2)
 		}
 	}
 	for _, a := range r.Apps {
@@ -921,7 +955,7 @@ func (r *Run) AdoptCrashed(dir string, inflight *Op) error {
 			r.dupStage[s] = st + 1
 		}
 	}
-	r.M.Restarted(r.DB.Head().MinTime() != math.MaxInt64, r.inOrderBlocksMaxT())
+	r.M.Restarted(r.DB.Head().MinTime() != math.MaxInt64, r.DB.Head().MaxTime(), r.inOrderBlocksMaxT())
 	r.noteGC()
 	for s := range r.tainted {
 		r.taintedReopened[s] = true
@@ -982,7 +1016,22 @@ func (r *Run) blocksString() string {
 // time of any block built from in-order head data (documented: appended samples stay
 // ahead of prior blocks).
 func (r *Run) afterCompaction() {
-	if maxt := r.inOrderBlocksMaxT(); maxt != math.MinInt64 {
+	// Only blocks cut from the in-order head move the live head's lower bound. A regular block
+	// merged from an out-of-order block (it carries no hint, see the listed finding
+	// ooo-block-merged-raises-restart-bound) can end beyond the head's truncation point; it
+	// raises the bound at the next restart (Restarted), not while the process lives.
+	r.scanBlocks()
+	maxt := int64(math.MinInt64)
+	for _, b := range r.DB.Blocks() {
+		m := b.Meta()
+		if m.Compaction.FromOutOfOrder() || m.Compaction.FromStaleSeries() || r.oooULIDs[m.ULID.String()] {
+			continue
+		}
+		if m.MaxTime > maxt {
+			maxt = m.MaxTime
+		}
+	}
+	if maxt != math.MinInt64 {
 		r.M.Truncated(maxt)
 	}
 }
